@@ -101,6 +101,9 @@ type RemoteSigner struct {
 	Handed   [][]byte
 	Calls    int
 	OnSign   func() // called inside Sign, before the signature is made
+	// WipeInput: once the signature is made the signer wipes the buffer it was
+	// handed (a careful HSM client does; the buffer is its to use)
+	WipeInput bool
 }
 
 // Sign implements signature.Signer.
@@ -126,6 +129,11 @@ func (s *RemoteSigner) Sign(payload []byte) ([]byte, []*x509.Certificate, error)
 		sig, err = RawSign(s.Key, KeySpecOf(s.Key.Kind).SignatureAlgorithm(), payload)
 		if err != nil {
 			return nil, nil, err
+		}
+	}
+	if s.WipeInput {
+		for i := range payload {
+			payload[i] = 0
 		}
 	}
 	if s.NilChain {
